@@ -24,7 +24,7 @@ void drive_ldexp(const char* type, const char* opname, const std::vector<typenam
             // lanes of one vector hold different values AND different exponents
             a[i] = vals[(j / ne + i * 7) % n]; e[i] = (IT)exps[(j + i * 13) % ne];
         }
-        bool ok = false;
+        volatile bool ok = false;
         unsigned focus = (unsigned)(k % W);
         uint32_t cls = fcls(a[focus]) | ((e[focus] == 0 ? 0u : (e[focus] > 0 ? 1u : 2u)) << 4) | ((std::abs((long long)e[focus]) > 2200 ? 1u : 0u) << 6);
         VK_GUARDED(cls, ("a=" + hex(a[focus]) + ",e=" + std::to_string((long long)e[focus])), { res = avel::to_array(use_scalbn ? avel::scalbn(V(a), IV(e)) : avel::ldexp(V(a), IV(e))); ok = true; });
